@@ -67,6 +67,7 @@ func init() {
 	reg(&spec{ID: "C03", Pkg: "./harness/c03", Level: "exploration", ShardsQ: n, ShardsT: n, DeadQ: 150, DeadT: 1500})
 	reg(&spec{ID: "C11", Pkg: "./harness/c11", Level: "exploration", ShardsQ: n, ShardsT: n, DeadQ: 200, DeadT: 1500})
 	reg(&spec{ID: "C12", Pkg: "./harness/c12", Level: "exploration", ShardsQ: n, ShardsT: n, DeadQ: 150, DeadT: 1500})
+	reg(&spec{ID: "C14", Pkg: "./harness/c14", Level: "model_checking", ShardsQ: n, ShardsT: n, DeadQ: 240, DeadT: 1800})
 	reg(&spec{ID: "C15", Pkg: "./harness/c15", Level: "exploration", ShardsQ: n, ShardsT: n, DeadQ: 240, DeadT: 1800,
 		InstrFiles: []instrSpec{{File: "terminfo/terminfo.go", Time: true}}})
 	reg(&spec{ID: "C16", Pkg: "./harness/c16", Level: "exploration", ShardsQ: n, ShardsT: n, DeadQ: 150, DeadT: 1500})
